@@ -41,3 +41,46 @@ structure CoverEP (semi : SemI) (e : EP) : Prop where
       ∧ ((noCarg synD).map (·.name)).take (writtenArgs synE e.args).length = (writtenArgs synE e.args).map (·.1)
 
 end Verif.C01.Ix
+
+/-! ## property lists (round 4) -/
+namespace Verif.C01.Ix
+open Verif.Codec Verif.Tables Verif.C01
+
+/-- the variables an EP writes, in synopsis order. -/
+def writtenVarsEP (semi : SemI) (e : EP) : List Str :=
+  match findEnc semi e.pred (epRoles e) with
+  | .ok syn => (writtenArgs syn e.args).map (·.2)
+  | .error _ => []
+
+/-- the positions at which Indexed MRS writes a variable with its property list: the index and
+the arguments (not the constraints). -/
+def writtenVars (semi : SemI) (m : MRS) : List Str :=
+  m.index.toList ++ m.rels.flatMap (writtenVarsEP semi)
+
+/-- the decidable covering condition on property lists: every variable that has properties is a
+valid variable whose sort has a non-empty property list with distinct names in the SEM-I, and each
+value that will be written (the variable's own value for the property, or the SEM-I's value when the
+variable lacks the property), upper-cased, is subsumed in the property hierarchy by the value the
+SEM-I declares for that property. -/
+def propsCover (semi : SemI) (m : MRS) : Bool :=
+  m.vars.all (fun vp => vp.2.isEmpty || (validVar vp.1 &&
+    (match dget semi.vprops (varSort vp.1) with
+     | none => false
+     | some sps => !sps.isEmpty && decide ((sps.map (·.1)).Nodup) &&
+         sps.all (fun kv => hsub semi.psub kv.2 (upper ((dget vp.2 kv.1).getD kv.2))))))
+
+/-- the property map Indexed MRS gives back for `v`: the SEM-I's property names in the SEM-I's
+order with the written (upper-cased) values, when properties are on, `v` has properties and is
+written at the index or as an argument; the empty map otherwise. -/
+def propsViewI (semi : SemI) (o : Opts) (m : MRS) (v : Str) : Props :=
+  if o.properties = true ∧ v ∈ writtenVars semi m then
+    match dget m.vars v with
+    | some ps =>
+      if ps.isEmpty then []
+      else match dget semi.vprops (varSort v) with
+        | some sps => sps.map (fun kv => (kv.1, upper ((dget ps kv.1).getD kv.2)))
+        | none => []
+    | none => []
+  else []
+
+end Verif.C01.Ix
